@@ -336,7 +336,8 @@ def pair_format(rng):
     A = base_instance(rng, k=rng.choice([1, 2, 2, 3]))
     A["format"] = "dict"
     B = copy.deepcopy(A)
-    B["format"] = rng.choice(["list", "symkeys", "sympy_matrix", "blockseries", "symkeys"])
+    B["format"] = rng.choice(["list", "symkeys", "sympy_matrix", "blockseries", "symkeys",
+                              "blocklist", "blockdict", "blockseries2"])
     if B["format"] == "symkeys":
         names = ["q", "a", "m", "z"][: A["k"]]
         rng.shuffle(names)
@@ -504,6 +505,8 @@ def _job(args):
                 return ("ok", idx, projection_session(A, idx + 1, p, pid), dict(kind=maker.__name__, A=hermitian.describe(A), B=None, C=None))
             if not hermitian.well_posed(B) or not hermitian.well_posed(A):
                 continue
+            if any(all(hermitian.epair(e) == (0, 0) for e in X["E"]) for X in (A, B)):
+                continue     # H_0 = 0 is refused by the library up front (ValueError): not an input of these relations
             ses = dict(sid=idx + 1, prop=pid, rel=relf(p), A=run_side(A, p), B=run_side(B, p))
             if C is not None:
                 ses["C"] = run_side(C, p)
@@ -515,7 +518,12 @@ def _job(args):
         except (NonFinite, hermitian.NotRepresentable) as e:
             return ("nonfinite", idx, f"{type(e).__name__}: {e}", dict(kind=maker.__name__))
         except Exception as e:  # noqa: BLE001
-            return ("crash", idx, f"{type(e).__name__}: {e}\n{traceback.format_exc(limit=5)}", dict(kind=maker.__name__))
+            desc = dict(kind=maker.__name__)
+            try:
+                desc.update(A=hermitian.describe(A), B=hermitian.describe(B) if B is not None else None)
+            except Exception:  # noqa: BLE001
+                pass
+            return ("crash", idx, f"{type(e).__name__}: {e}\n{traceback.format_exc(limit=5)}", desc)
     return ("skip", idx, "could not generate", dict(kind=maker.__name__))
 
 
@@ -547,7 +555,11 @@ def run(pid, tier, seed, replay=None):
             descs[it[2]["sid"]] = it[3]
             per_kind[kind] = per_kind.get(kind, 0) + 1
         elif it[0] == "crash":
+            # one of the related runs raised (or returned something that is not a finite Gaussian rational)
+            # on a well-posed input while the relation demands a value: a violation, not a statistic
             crashes.append(dict(kind=kind, error=it[2][:400]))
+            violations.append(dict(kind="exception_in_related_run", relation=kind, error=it[2][:600],
+                                   pair={k_: v_ for k_, v_ in it[3].items() if k_ != "kind"}))
         elif it[0] == "nonfinite":
             violations.append(dict(kind="nonfinite", detail=it[2], relation=kind))
         else:
